@@ -52,6 +52,12 @@ type groupResult struct {
 	Returned  int       `json:"returned_observations"`
 	ObsSubs   int       `json:"observer_subscribes"`
 	ObsUnsubs int       `json:"observer_unsubscribes"`
+
+	IndivStopped   int `json:"pools_shut_down_individually_before_group_shutdown"`
+	MixedShutdowns int `json:"group_shutdowns_over_stopped_and_running_pools"`
+	StoppedByGroup int `json:"pools_verified_stopped_after_group_shutdown"`
+
+	SubgroupShutdowns int `json:"subgroups_shut_down_before_the_root"`
 }
 
 func (n *gnode) under(m *gnode) bool {
@@ -262,19 +268,189 @@ func runGroup(cfg groupCfg) (res groupResult) {
 	// release parked waiters (none should be) and shut the tree down
 	sd := gdump.NewActor("group-shutdown")
 	defer sd.Close()
-	if st := do(sd, root.g.Shutdown); st != gdump.Returned {
-		viol("group/shutdown-never-returns", "Group.Shutdown() of an idle tree is parked for ever")
-		return
-	}
+	var ps []*workerpool.WorkerPool
+	var names []string
+	var paths [][]*workerpool.Group
 	for _, p := range pools {
-		p := p
-		if st := do(sd, p.pool.ShutdownComplete.Wait); st != gdump.Returned {
-			gs := gdump.Snapshot()
-			viol("group/pool-shutdown-hangs", "after Group.Shutdown() pool %s never completes its shutdown (%s)", p.name, patternOf(gs, nil))
+		ps = append(ps, p.pool)
+		names = append(names, p.node.name+"/"+p.name)
+		var path []*workerpool.Group
+		for x := p.node; x != root; x = x.parent {
+			path = append([]*workerpool.Group{x.g}, path...)
+		}
+		paths = append(paths, path)
+	}
+	var subs []*workerpool.Group
+	for _, n := range nodes[1:] {
+		subs = append(subs, n.g)
+	}
+	shutdownMixedTree(rng, &res, root.g, ps, names, paths, subs, sd, viol)
+	return
+}
+
+// shutdownMixedTree ends a group scenario (every pool idle): a seeded subset of the pools (any position in creation
+// order) is shut down individually first and some of those are restarted; a seeded subset of the subgroups is shut
+// down (Group.Shutdown) and some pools below them are restarted; then the root group is shut down. After every
+// Group.Shutdown each pool below that group for which no group on the path had been shut down before is stopped:
+// IsRunning() false, ShutdownComplete.Wait() returns; at the end a Submit on a stopped pool is not run.
+// paths[i] = the groups from below the root down to the group holding pools[i]; subs = all subgroups in creation order.
+func shutdownMixedTree(rng *rand.Rand, res *groupResult, root *workerpool.Group, pools []*workerpool.WorkerPool, names []string, paths [][]*workerpool.Group, subs []*workerpool.Group, sd *gdump.Actor, viol func(fp, f string, a ...any)) {
+	state := make([]string, len(pools))
+	stopPool := func(i int) bool {
+		p := pools[i]
+		if st := do(sd, func() { p.Shutdown() }); st != gdump.Returned {
+			viol("shutdown-call-never-returns", "Shutdown() of the idle pool %s is parked for ever", names[i])
+			return false
+		}
+		if st := do(sd, p.ShutdownComplete.Wait); st != gdump.Returned {
+			viol("group/pool-shutdown-hangs", "pool %s, shut down individually while idle, never completes its shutdown (%s)", names[i], patternOf(gdump.Snapshot(), nil))
+			return false
+		}
+		return true
+	}
+	startPool := func(i int) bool {
+		p := pools[i]
+		if st := do(sd, func() { p.Start() }); st != gdump.Returned {
+			viol("start-never-returns", "Start() of pool %s after a completed shutdown is parked for ever", names[i])
+			return false
+		}
+		return true
+	}
+	for i := range pools {
+		state[i] = "running"
+		if rng.Intn(3) != 0 {
+			continue
+		}
+		if !stopPool(i) {
 			return
 		}
+		state[i] = "stopped"
+		res.IndivStopped++
+		if rng.Intn(3) == 0 {
+			if !startPool(i) {
+				return
+			}
+			state[i] = "restarted"
+		}
 	}
-	return
+	shut := map[*workerpool.Group]bool{}
+	history := func() (h string, stopped, running int) {
+		for i := range pools {
+			h += names[i] + "=" + state[i] + " "
+			if state[i] == "stopped" {
+				stopped++
+			} else {
+				running++
+			}
+		}
+		return
+	}
+	// groupShutdown calls from.Shutdown() (from == nil: the root) and verifies what it has to stop
+	groupShutdown := func(from *workerpool.Group, fromName string) bool {
+		var must []int
+		for i := range pools {
+			k := 0
+			if from != nil {
+				k = -1
+				for j, g := range paths[i] {
+					if g == from {
+						k = j
+					}
+				}
+				if k < 0 {
+					continue // not below from
+				}
+			}
+			fresh := true
+			for _, g := range paths[i][k:] {
+				fresh = fresh && !shut[g]
+			}
+			if fresh {
+				must = append(must, i)
+			}
+		}
+		h, stopped, running := history()
+		if stopped > 0 && running > 0 && len(must) > 0 {
+			res.MixedShutdowns++
+		}
+		g := root
+		if from != nil {
+			g = from
+		}
+		if st := do(sd, g.Shutdown); st != gdump.Returned {
+			viol("group/shutdown-never-returns", "Group(%s).Shutdown() of an idle tree is parked for ever (pools in creation order: %s)", fromName, h)
+			return false
+		}
+		for _, i := range must {
+			if pools[i].IsRunning() {
+				viol("group/pool-running-after-group-shutdown", "Group(%s).Shutdown() returned but pool %s below it still reports IsRunning(): it was never shut down (no group between them had been shut down before; pools in creation order before the call: %s)", fromName, names[i], h)
+				return false
+			}
+		}
+		for _, i := range must {
+			if st := do(sd, pools[i].ShutdownComplete.Wait); st != gdump.Returned {
+				viol("group/pool-shutdown-hangs", "after Group(%s).Shutdown() pool %s never completes its shutdown (%s; pools in creation order before the call: %s)", fromName, names[i], patternOf(gdump.Snapshot(), nil), h)
+				return false
+			}
+			state[i] = "stopped"
+			res.StoppedByGroup++
+		}
+		if from != nil {
+			shut[from] = true
+			for i := range pools { // descendants of from
+				for j, g := range paths[i] {
+					if g == from {
+						for _, d := range paths[i][j:] {
+							shut[d] = true
+						}
+					}
+				}
+			}
+		}
+		return true
+	}
+	for k, g := range subs {
+		if rng.Intn(4) == 0 {
+			if !groupShutdown(g, fmt.Sprintf("subgroup #%d", k+1)) {
+				return
+			}
+			res.SubgroupShutdowns++
+		}
+	}
+	// some stopped pools are restarted (also below subgroups that were shut down: the root's shutdown does not reach those)
+	for i := range pools {
+		if state[i] == "stopped" && rng.Intn(4) == 0 {
+			if !startPool(i) {
+				return
+			}
+			state[i] = "restarted"
+		}
+	}
+	if !groupShutdown(nil, "root") {
+		return
+	}
+	// pools the root's shutdown could not reach (restarted below a subgroup that had been shut down): stopped directly
+	for i, p := range pools {
+		if p.IsRunning() {
+			if !stopPool(i) {
+				return
+			}
+		}
+	}
+	var late atomic.Int32
+	for i, p := range pools {
+		p := p
+		if st := do(sd, func() { p.Submit(func() { late.Add(1) }) }); st != gdump.Returned {
+			viol("submit-never-returns", "Submit on pool %s after Group.Shutdown() is parked for ever", names[i])
+			return
+		}
+		sd.TakePanic()
+	}
+	waitQuiescent()
+	if late.Load() != 0 {
+		h, _, _ := history()
+		viol("group/task-ran-after-group-shutdown", "%d task(s) submitted after every pool of the tree had completed its shutdown were run (%s)", late.Load(), h)
+	}
 }
 
 // runGroupConcurrent: groups and pools are created (CreateGroup / CreatePool)
@@ -590,15 +766,22 @@ func runGroupConcurrent(cfg groupCfg) (res groupResult) {
 			viol("group/task-not-run-exactly-once", "the task of pool %s ran %d times", p.name, p.task.runs.Load())
 		}
 	}
-	if st := do(sd, root.Shutdown); st != gdump.Returned {
-		viol("group/shutdown-never-returns", "Group.Shutdown() of an idle tree is parked for ever")
-		return
-	}
-	for _, p := range pools {
-		if st := do(sd, p.pool.Load().ShutdownComplete.Wait); st != gdump.Returned {
-			viol("group/pool-shutdown-hangs", "after Group.Shutdown() pool %s never completes its shutdown (%s)", p.name, patternOf(gdump.Snapshot(), nil))
-			return
+	var ps []*workerpool.WorkerPool
+	var names []string
+	var paths [][]*workerpool.Group
+	for _, p := range pools { // plan order = creation order
+		ps = append(ps, p.pool.Load())
+		names = append(names, fmt.Sprintf("g%d/%s", p.group+1, p.name))
+		var path []*workerpool.Group
+		for x := p.group; x >= 0; x = groups[x].parent {
+			path = append([]*workerpool.Group{groups[x].g.Load()}, path...)
 		}
+		paths = append(paths, path)
 	}
+	var subs []*workerpool.Group
+	for _, g := range groups {
+		subs = append(subs, g.g.Load())
+	}
+	shutdownMixedTree(rng, &res, root, ps, names, paths, subs, sd, viol)
 	return
 }
